@@ -35,6 +35,7 @@ typedef struct {
 	_Atomic int invocations, in_handler, cancel_handler_runs, activated, activate_done, cancelled_by_harness, released;
 	_Atomic uint64_t merged_sum, merged_or, delivered_sum, delivered_or, last_delivered;
 	_Atomic int sentinel_seen;
+	_Atomic int epoch;          // bumped (and woken) after every event-handler invocation and after a cancel issued from the registration handler
 	_Atomic long bytes_written, bytes_read;
 } src_t;
 static src_t SRC[MAXSRC];
@@ -107,8 +108,20 @@ static void event_handler(int sid) {
 		logev(EV_RET, -200 - sid, inv, 0);
 	}
 	fwake_all((_Atomic int *)&s->invocations);
+	atomic_fetch_add(&s->epoch, 1); fwake_all(&s->epoch);
 	atomic_fetch_sub(&s->in_handler, 1);
 	logev(EV_HANDLER_END, sid, inv, 0);
+}
+static void registration_handler(int sid) {
+	src_t *s = &SRC[sid];
+	logev(EV_NOTE, sid, 40, (int64_t)(long)dispatch_get_specific(&TAGKEY));
+	if (s->flags & 16) {          // cancel from the registration handler (it runs on the target queue, inside the source's own invocation)
+		logev(EV_CALL, -600 - sid, 0, K_CANCEL);
+		dispatch_source_cancel(s->ds);
+		logev(EV_RET, -600 - sid, 0, 0);
+		atomic_fetch_add(&s->epoch, 1); fwake_all(&s->epoch);
+	}
+	logev(EV_NOTE, sid, 41, 0);
 }
 static void cancel_handler(int sid) {
 	src_t *s = &SRC[sid];
@@ -266,6 +279,7 @@ static int create_objects(void) {
 		if (!s->ds) { fprintf(stderr, "source %d not created\n", i); return -1; }
 		dispatch_source_set_event_handler(s->ds, ^{ event_handler(sid); });
 		if (s->flags & 1) dispatch_source_set_cancel_handler(s->ds, ^{ cancel_handler(sid); });
+		if (s->flags & 8) dispatch_source_set_registration_handler(s->ds, ^{ registration_handler(sid); });
 		if (s->type == T_TIMER) do_settimer(s, sid, -1000 - sid, s->a, s->b, s->c);
 		if (s->flags & 2) { atomic_store(&s->activated, 1); logev(EV_CALL, -300 - sid, sid, K_ACTIVATE); dispatch_activate(s->ds); atomic_store(&s->activate_done, 1); logev(EV_RET, -300 - sid, sid, 0); }
 	}
@@ -296,8 +310,9 @@ static void *coordinator(void *arg) {
 	// convergence (C15): every merge made before cancellation must be delivered; a lost wake-up ends in a stuck witness here
 	for (int i = 0; i < MAXSRC; i++) if (SRC[i].used && !dispatch_source_testcancel(SRC[i].ds)) {
 		src_t *s = &SRC[i];
-		if (s->type == T_ADD) { for (;;) { int v = atomic_load(&s->invocations); if (atomic_load(&s->delivered_sum) == atomic_load(&s->merged_sum)) break; fwait((_Atomic int *)&s->invocations, v); } }
-		else if (s->type == T_OR) { for (;;) { int v = atomic_load(&s->invocations); if ((atomic_load(&s->delivered_or) | atomic_load(&s->merged_or)) == atomic_load(&s->delivered_or)) break; fwait((_Atomic int *)&s->invocations, v); } }
+		// (a source cancelled meanwhile - by its own handler or its registration handler - owes nothing any more)
+		if (s->type == T_ADD) { for (;;) { int v = atomic_load(&s->epoch); if (atomic_load(&s->delivered_sum) == atomic_load(&s->merged_sum) || dispatch_source_testcancel(s->ds)) break; fwait(&s->epoch, v); } }
+		else if (s->type == T_OR) { for (;;) { int v = atomic_load(&s->epoch); if ((atomic_load(&s->delivered_or) | atomic_load(&s->merged_or)) == atomic_load(&s->delivered_or) || dispatch_source_testcancel(s->ds)) break; fwait(&s->epoch, v); } }
 		else if (s->type == T_REPLACE) {       // a final non-zero merge is the last value delivered
 			logev(EV_CALL, -400 - i, i, (int64_t)SENTINEL); dispatch_source_merge_data(s->ds, SENTINEL); logev(EV_RET, -400 - i, i, 0);
 			flag_wait(&s->sentinel_seen);
@@ -309,7 +324,7 @@ static void *coordinator(void *arg) {
 	int any_timer = 0; for (int i = 0; i < MAXSRC; i++) if (SRC[i].used && SRC[i].type == T_TIMER) any_timer = 1;
 	if (any_timer) { atomic_store(&S->future_stimulus, 1); struct timespec ts = { horizon_ms / 1000, (horizon_ms % 1000) * 1000000 }; nanosleep(&ts, 0); atomic_store(&S->future_stimulus, 0); }
 	for (int i = 0; i < MAXSRC; i++) if (SRC[i].used && SRC[i].type == T_TIMER && !dispatch_source_testcancel(SRC[i].ds)) {
-		for (;;) { int v = atomic_load(&SRC[i].invocations); if (v >= 1) break; logev(EV_NOTE, i, 2, 0); fwait((_Atomic int *)&SRC[i].invocations, v); }
+		for (;;) { int v = atomic_load(&SRC[i].epoch); if (atomic_load(&SRC[i].invocations) >= 1 || dispatch_source_testcancel(SRC[i].ds)) break; logev(EV_NOTE, i, 2, 0); fwait(&SRC[i].epoch, v); }
 	}
 	logev(EV_NOTE, -1, 1, 0);             // end of the observation window
 	// cancel everything that is still live, wait for the cancel handlers (C16 convergence), then release
